@@ -87,17 +87,21 @@ def run(tier, seed, replay=None):
             # the ring arithmetic for an UNBOUNDED number of wrap-arounds (TLC's totals are bounded): inductive invariant by Apalache
             tlc_cmds += vlib.apalache_inductive(sc, "RingInd", timeout=1800)
         # ---------------- (A) spec -> code: transition cover replayed lock-step
-        r, nodes, edges, inits = vlib.tlc_graph(sc, "PipeRing", "PipeRing_gen.cfg", workers=8,
-                                                fields={"last"}, timeout=1800)
-        states += r.distinct
-        trans += r.generated
-        tlc_cmds.append(r.cmd)
-        paths, covered = vlib.cover_paths(nodes, edges, inits, max_len=40, seed=seed)
-        log("[A] graph %d states / %d edges -> %d cover paths (%d edges covered)" % (len(nodes), len(edges), len(paths), covered))
+        graphs = {}
+        for capu, gencfg in ((2, "PipeRing_gen.cfg"), (3, "PipeRing_gen3.cfg")):
+            r, nodes, edges, inits = vlib.tlc_graph(sc, "PipeRing", gencfg, workers=8, fields={"last"}, timeout=1800)
+            states += r.distinct
+            trans += r.generated
+            tlc_cmds.append(r.cmd)
+            paths, covered = vlib.cover_paths(nodes, edges, inits, max_len=40, seed=seed)
+            log("[A] capacity %d units: graph %d states / %d edges -> %d cover paths (%d edges covered)" % (capu, len(nodes), len(edges), len(paths), covered))
+            graphs[capu] = (nodes, paths)
         rnd = random.Random(seed)
-        plan = [("mem", 2, len(paths) if thorough else 1500), ("file", 2, 400 if thorough else 90)]
+        # capacity 3 units (writes of 1 or 3 units): a parked writer with the ring still more than half full after a read
+        plan = [("mem", 2, len(graphs[2][1]) if thorough else 1500), ("file", 2, 400 if thorough else 90), ("mem", 3, 6000 if thorough else 600)]
         replayed = 0
         for backend, capu, count in plan:
+            nodes, paths = graphs[capu]
             if count >= len(paths):
                 sel = paths
             else:
@@ -151,8 +155,8 @@ def run(tier, seed, replay=None):
                 stats["wake_paths_%s" % backend] = min(len(wake), count // 3)
                 log("[A] %s: %d of %d cover paths replayed, at least %d of them contain a wake-up (of %d)" % (backend, len(sel), len(paths), min(len(wake), count // 3), len(wake)))
             steps = [[nodes[n]["last"] for n in p[1:]] for p in sel]
-            trace = sc.path("replay-%s.ndjson" % backend)
-            inp = {"backend": backend, "cap": 2, "unit": UNIT[backend], "seed": seed, "paths": steps,
+            trace = sc.path("replay-%s-%d.ndjson" % (backend, capu))
+            inp = {"backend": backend, "cap": capu, "unit": UNIT[backend], "seed": seed, "paths": steps,
                    "trace": trace, "dir": sc.dir}
             rc, out, err = vlib.run_vdrv(["pipe-replay"], stdin=json.dumps(inp), timeout=3000)
             if rc != 0:
@@ -172,7 +176,7 @@ def run(tier, seed, replay=None):
             stats["drifts"] = stats.get("drifts", 0) + res.get("drifts", 0)
             if not samples and steps:
                 samples.append({"kind": "lock-step behaviour (PipeRing actions)", "steps": steps[0][:12]})
-            validate_trace(sc, verdict, trace, 2 * UNIT[backend], "replay-" + backend, stats)
+            validate_trace(sc, verdict, trace, capu * UNIT[backend], "replay-%s-%d" % (backend, capu), stats)
         # ---------------- (B) code -> spec: free-running goroutines
         free = [("mem", 1, 4096), ("mem", 4097, 8192), ("mem", 12288, 12288), ("mem", 20000, 20480)]
         if thorough:
